@@ -259,13 +259,14 @@ def read_str_coding(source):
     # as defined by PEP-263 (https://www.python.org/dev/peps/pep-0263/)
     CODING_LINE_PATTERN = b"^[ \t\f]*#.*?coding[:=][ \t]*([-_.a-zA-Z0-9]+)"
 
+    # the first two lines, whatever the newline convention of the file is
     if type(source) == bytes:
-        newline = b"\n"
+        newline = re.compile(b"\r\n|\r|\n")
         CODING_LINE_PATTERN = re.compile(CODING_LINE_PATTERN)
     else:
-        newline = "\n"
+        newline = re.compile("\r\n|\r|\n")
         CODING_LINE_PATTERN = re.compile(CODING_LINE_PATTERN.decode("ascii"))
-    for line in source.split(newline, 2)[:2]:
+    for line in newline.split(source, 2)[:2]:
         if re.match(CODING_LINE_PATTERN, line):
             return _find_coding(line)
     else:
